@@ -92,7 +92,7 @@ def iso(a_text, b_text):
         return False
     if sorted(p for _, p, _ in pa[2]) != sorted(p for _, p, _ in pb[2]):
         return False
-    from rdflib.compare import isomorphic
+    from iso import isomorphic      # exact; rdflib.compare.isomorphic has false negatives (see iso.py)
     return isomorphic(to_rdflib(*pa), to_rdflib(*pb))
 
 
